@@ -235,7 +235,7 @@ theorem setInterRaw_eq {db : DB} (hw : SetWF db) {ks : List Bytes} (hne : ks ≠
     apply ssorted_ext ((ssorted_sortBy (nodup_dedup _)).filter _) hs
     intro e
     rw [mem_setInterOf_cons]
-    simp only [setInterRaw, List.mem_filter]
+    simp only [List.mem_filter]
     rw [mem_sortBy, mem_dedup, mem_kidElems hw.wf, List.filter_filter]
     have hcnt : (db.sets.filter (fun a => a.elem == e && (setKids db (k :: rest) now).contains a.kid)).length
         = ((k :: rest).filter (fun k => (mset db k now).contains e)).length := by
@@ -385,11 +385,12 @@ theorem setStore_wf {db : DB} (hw : SetWF db) (d : Bytes) (ks : List Bytes) (now
 
 /-- **The storing variants.** With a destination that is not a stale leftover (D05) and a result
 that does not change when the destination is wiped (guaranteed when the destination is not one of
-the sources, D08): the destination ends up holding exactly `result`, with its old expiry. -/
+the sources, D08; only asked for a non-empty list of sources): the destination ends up holding
+exactly `result`, with its old expiry. -/
 theorem setStore_refS {db : DB} (hw : SetWF db) {now : Int} {d : Bytes}
     (hns : staleKey db now d = false) (ks : List Bytes) (compute : DB → List Bytes)
     {result : List Bytes} (hres : SSorted result)
-    (hc : ∀ db2, SetWF db2 → Frame db db2 d → compute db2 = result) :
+    (hc : ks.isEmpty = false → ∀ db2, SetWF db2 → Frame db db2 d → compute db2 = result) :
     RefS now (update (fun x => setStore x d ks now compute) db)
       (Spec.setStore (abs now db) d ks result) := by
   have hlive : liveAt now (none : Option Int) = true := rfl
@@ -404,7 +405,7 @@ theorem setStore_refS {db : DB} (hw : SetWF db) {now : Int} {d : Bytes}
         ∃ db3, setInsertAll db2 id (compute db2) 0 = .ok (db3, (result.length : Int)) ∧
           abs now db3 = put (abs now db) d ⟨.set result, et⟩ := by
       intro db2 id et hw2 hfr hrow hel hlv
-      rw [hc db2 hw2 hfr]
+      rw [hc hemp db2 hw2 hfr]
       obtain ⟨db3, g1, g2, g3, g4, g5⟩ := setInsertAll_spec result db2 0 hw2 hrow hres.nodup
         (by rw [hel]; simp)
       rw [hel, sunion_nil_of_ssorted hres] at g5
